@@ -70,8 +70,9 @@ fn check_one(cfg: &Cfg, e: &ProgramEntry, sampling: Option<(f32, u64)>, start_mi
                     // below 2^53 the weight is the floor or the ceiling of 1/rate; above, "within 1 of 1/rate"
                     let mut c = vec![fl, ce];
                     if fl >= 1 << 53 {
-                        c.push(fl - 1);
-                        c.push(ce.saturating_add(1));
+                        // evaluated in double precision there (see C12): within 1 of the rounded quotient
+                        let inv = (1.0f64 / rate as f64) as u64;
+                        c.extend([fl - 1, ce.saturating_add(1), inv.saturating_sub(1), inv, inv.saturating_add(1)]);
                     }
                     c.sort_unstable();
                     c.dedup();
